@@ -67,7 +67,7 @@ fn deserialize_block<R: BufRead + Seek>(
     })()
         .map_err(|e| e.annotate("invalid_transactions"))?;
     match len {
-        Len::Len(_) => (),
+        Len::Len(_) => read_len.finish()?,
         Len::Indefinite => match raw.special()? {
             CBORSpecial::Break => (),
             _ => return Err(DeserializeFailure::EndingBreakMissing.into()),
